@@ -229,6 +229,13 @@ theorem run_steps (inp : Inputs ℝ) (kCN : Nat) :
     have := finalState_eq inp.p kCN 0 _ (init inp) sl T h1 h2 hne
     simpa using this
 
+/-- **the selected formulation does not depend on the capitalisation** the user typed
+(`self.initIce = initIce.lower()`): the model's parser maps a string by its lower-case form only. -/
+theorem initIce_case_insensitive (s t : String) (h : s.toLower = t.toLower) :
+    InitIce.ofString s = InitIce.ofString t := by
+  unfold InitIce.ofString
+  rw [h]
+
 /-! ### non-vacuity: the default configuration (5 wt.% sucrose, 1 cm³ cubic vials) -/
 
 /-- primary constants of `snowConfig_default.yaml` -/
